@@ -99,6 +99,18 @@ impl Factory {
         Self::from_env(env, slices, limits)
     }
 
+    /// the same factory with the ff_tokens inference capability switched on (sampling loops that
+    /// accept fast-forward tokens from commit_token)
+    pub fn with_ff_tokens(vocab: &VocabSpec, slices: &Slices) -> Result<Self> {
+        let env = vocab.build();
+        let caps = InferenceCapabilities { ff_tokens: true, conditional_ff_tokens: false, backtrack: false, fork: false };
+        let mut factory = ParserFactory::new(&env, caps, &slices.to_vec())?;
+        factory.quiet();
+        factory.limits_mut().verbose_errors = false;
+        let n_vocab = env.tok_trie().vocab_size();
+        Ok(Factory { env, factory, n_vocab })
+    }
+
     pub fn from_env(env: TokEnv, slices: &Slices, limits: Option<ParserLimits>) -> Result<Self> {
         let caps = InferenceCapabilities {
             ff_tokens: false,
